@@ -138,7 +138,7 @@ PROPS.update({
         min_evaluations=500,
     ),
     "C13": dict(
-        level_text="Fault enumeration by runtime monitoring: instrumented Read/Write objects fragment I/O in many patterns and inject one error at each structural offset of each container (every offset of containers up to 16 KiB in the thorough tier), for five error kinds plus Interrupted and zero-length writes.",
+        level_text="Fault enumeration by runtime monitoring: instrumented Read/Write objects fragment I/O in many patterns and inject one error at each structural offset of each container (every offset of containers up to 4 KiB and 300 random offsets of larger ones in the thorough tier), for five error kinds plus Interrupted and zero-length writes.",
         design_ref="DESIGN.md §5 C13",
         level_note="ErrorKind::Interrupted may legitimately be retried (read_exact/write_all) or surfaced (the one-byte end probe): only panics and wrong bytes are violations for it.",
         technique="runtime monitoring with fault injection: instrumented Read/Write, prefix oracle on the sink",
@@ -146,7 +146,7 @@ PROPS.update({
         rule="containers = expand(F) for assembled files (all three chunk kinds, literal chunks > 64 KiB, multi-chunk PNG, edge "
              "cases). per container: 36 read x write fragmentation patterns without fault; a read fault at every structural "
              "offset (tag, varints, first/last payload and correction byte, EOF probe) + random offsets, a write fault at chunk "
-             "boundaries + random offsets; thorough: every offset for containers/files <= 16 KiB. evaluations = reconstruction "
+             "boundaries + random offsets; thorough: every offset for containers/files <= 4 KiB, 300 random offsets otherwise. evaluations = reconstruction "
              "attempts. non-trivial = container whose plain round trip holds, distinct by content hash",
         assumptions=COMMON_ASSUME,
         min_evaluations=500,
